@@ -260,7 +260,8 @@ func cmdCheck(args []string) int {
 			s.Checked += v.Checked
 			s.Nontrivial += v.Nontrivial
 			s.Violated += v.Violated
-			if v.Nontrivial > 0 {
+			s.Folded += v.Folded
+			if v.Nontrivial > 0 || v.Folded > 0 {
 				distinct++
 			}
 		}
@@ -418,7 +419,7 @@ func cmdCheck(args []string) int {
 	cov := map[string]any{
 		"evaluations":         evals + a.Paths,
 		"distinct_nontrivial": distinct,
-		"rule":                "one evaluation = one assertion instance discharged on one path (solver query pc ∧ ¬assert) or one completed path; distinct_nontrivial counts distinct (harness instance, assertion id) pairs whose condition was symbolic (not constant-folded) on at least one path",
+		"rule":                "one evaluation = one assertion instance discharged on one path (solver query pc ∧ ¬assert) or one completed path; distinct_nontrivial counts distinct (harness instance, assertion id) pairs evaluated over symbolic inputs on at least one path: either discharged by a solver query (assertions[].nontrivial) or normalised to true by the term simplifier because both sides are the same term (assertions[].folded_over_symbolic_inputs)",
 		"states":              a.Paths,
 		"transitions":         a.Steps,
 		"traces_validated_against_impl": nReplayed,
